@@ -15,6 +15,7 @@ import (
 
 func main() {
 	r := ev.Start("C04")
+	defer r.FinishOnPanic()
 	r.SetDeadline(ev.Pick(r, 40*time.Second, 900*time.Second))
 	keys := ev.Pick(r, 4, 5)
 	res := seqmc.Explore(r, seqmc.Config{Name: "map-sequential", New: func() seqmc.Sys {
